@@ -12,6 +12,7 @@ import copy
 import datetime
 import ipaddress
 import json
+import random
 
 FUNCS = ["Condition", "Fn::And", "Fn::Base64", "Fn::Equals", "Fn::FindInMap", "Fn::GetAtt", "Fn::GetAZs", "Fn::If",
          "Fn::ImportValue", "Fn::Join", "Fn::Not", "Fn::Or", "Fn::Select", "Fn::Split", "Fn::Sub", "Ref"]
@@ -552,7 +553,11 @@ def modelled_resource(rng, g, pg, typ, width=None):
     elif typ == "AWS::SQS::QueuePolicy":
         P = {"PolicyDocument": pg.document(), "Queues": g.l(1)}
     else:
-        raise RuntimeError(f"no hand-built instance for modelled type {typ}")
+        # a type modelled since this file was written (an ordinary upstream change): a valid, literal instance drawn from the live schema
+        import schemagen
+        res = schemagen.Gen(random.Random(r.random()), fn_rate=0.0, opt_rate=0.5, resolvable=True).resource((), type_string=typ)
+        res.pop("Condition", None)
+        return res
     return {"Type": typ, "Properties": P}
 
 
@@ -665,7 +670,8 @@ def gen_template(rng, index=0, width=None, object_action=False, ops=None, types=
     for i in range(r.randint(0, 2)):
         resources[f"M{i + 2}"] = modelled_resource(r, g, pg, r.choice(types), width)
     for i in range(r.randint(1, 2)):
-        resources[f"G{i + 1}"] = unmodelled_resource(r, g, pg, UNMODELLED[(index + i) % len(UNMODELLED)], width, object_action)
+        um = [t for t in UNMODELLED if t not in types] or ["Custom::Thing"]
+        resources[f"G{i + 1}"] = unmodelled_resource(r, g, pg, um[(index + i) % len(um)], width, object_action)
     for rid, res in resources.items():
         if r.random() < 0.3:
             res["Condition"] = g.cname()
